@@ -266,6 +266,12 @@ def run(ctx):
             fails.append({"what": "harness died (%s)" % e, "replay": {"model": mdl.text(), "commands": h.log[1:][-60:]}})
             h.close()
             h = Harness(exe)
+        except RuntimeError as e:
+            hist.setdefault("scenario_errors", []).append(str(e)[:300])
+            h.close()
+            h = Harness(exe)
+    nerr = len(hist.get("scenario_errors", []))
+    ctx.oblige("at most a few scenarios abandoned on unexpected harness answers", "correspondence", nerr <= 3, str(hist.get("scenario_errors", [])[:3]))
     ctx.extra["tests"] = hist
 
     def directed(c):
